@@ -75,6 +75,7 @@ def fake_dgtsv(dl, d, du, b, overwrite_b=0):
     e = Engine.cur
     n = len(d)
     k = STATE['step']
+    STATE.setdefault('b0', []).append(b[0])
     x = [z3.Real('x%d_%d' % (k, i)) for i in range(n)]
     for i in range(n):
         lhs = lift(d[i]) * x[i]
@@ -290,6 +291,108 @@ def dynamic_fn(k, cells, mode, twin=False):
     return fn
 
 
+class _Enough(Exception):
+    pass
+
+
+def time_axis_fn(k, cells, twin=False):
+    """the time label attached to successive solves advances by the same step that the capacitance terms of the system were built
+    with, for the borehole's own (default) simulation period - the first three solves of the real loop"""
+    def fn(e):
+        import ghedesigner.radial_numerical_borehole as R
+        STATE['step'] = 0
+        STATE['b0'] = []
+        sut = borehole(k)
+        n = sum(cells)
+        T0 = [e.real('T%d' % i, 20, 120) for i in range(n)]
+        e.assume(T0[n - 1] == 20)
+        labels = []
+
+        def log_rec(v):
+            if len(STATE['sol']) > len(labels):        # the one log() of the time loop: called once after every solve
+                labels.append(v)
+                if len(labels) == 3:
+                    raise _Enough()
+            return math.log(v) if not isinstance(v, Sym) else sym_log_product(v)
+        shadow(R, 'log', log_rec)
+        rn = R.RadialNumericalBH(sut)
+        (rn.num_fluid_cells, rn.num_conv_cells, rn.num_pipe_cells, rn.num_grout_cells, rn.num_soil_cells) = cells
+        rn.num_cells = n
+        rn.bh_wall_idx = sum(cells[:4])
+        rn.thickness_soil_cell = (rn.r_far_field - rn.r_borehole) / rn.num_soil_cells
+        rn.thickness_grout_cell = (rn.r_borehole - rn.r_out_tube) / rn.num_grout_cells
+        rn.thickness_pipe_cell = (rn.r_out_tube - rn.r_in_tube) / rn.num_pipe_cells
+        rn.thickness_conv_cell = (rn.r_in_tube - rn.r_convection) / rn.num_conv_cells
+        rn.thickness_fluid_cell = (rn.r_convection - rn.r_fluid) / rn.num_fluid_cells
+        orig_fill = rn.fill_radial_cells
+        box = {}
+
+        def fill(a, b):
+            rc = orig_fill(a, b)
+            for i in range(n):
+                rc[R.CellProps.TEMP, i] = T0[i]
+            box['rc'] = rc
+            return rc
+        rn.fill_radial_cells = fill
+        STATE['sol'], STATE['sys'], STATE['interp'] = [], [], []
+        try:
+            rn.calc_sts_g_functions(sut)               # default period of this borehole (t_s dependent)
+            finished = True
+        except _Enough:
+            finished = False
+        if twin:
+            return False
+        rc = box['rc']
+        P = R.CellProps
+        # the step the system was built with, recovered from the first right-hand side: b0 = -T0 - q / (rho c V / dt), q = 1
+        dt_coef = (-STATE['b0'][0] - T0[0]) * float(rc[P.RHO_CP, 0]) * float(rc[P.VOL, 0])
+        t = [float(v) * rn.t_s for v in labels]
+        cs = [len(labels) >= 2, not finished or len(labels) >= 2]
+        for a, b in zip(t, t[1:]):
+            cs.append(abs((b - a) - dt_coef) <= 1e-6 * dt_coef)
+        cs.append(abs(t[0]) <= 1e-6)                   # the axis starts at (numerically) zero elapsed time
+        return conj(cs)
+    return fn
+
+
+def time_axis_replay(k, cells):
+    def replay(model, notes):
+        """native: the real model of the catalogue borehole on the production mesh; consecutive stored responses must be separated by
+        the heat injected in one coefficient step: energy check over the whole run against the time labels"""
+        restore_shadows()
+        import numpy as np
+
+        import ghedesigner.radial_numerical_borehole as R
+        sut = borehole(k)
+        rn = R.RadialNumericalBH(sut)
+        labels = []
+        real_log = R.log
+
+        solves = []
+
+        def log_rec(v):
+            if len(solves) > len(labels):
+                labels.append(float(v))
+            return real_log(v)
+        shadow(R, 'log', log_rec)
+        real_dgtsv = R.dgtsv
+
+        def count(dl, d, du, b, overwrite_b=0):
+            solves.append(1)
+            return real_dgtsv(dl, d, du, b, overwrite_b=overwrite_b)
+        shadow(R, 'dgtsv', count)
+        try:
+            rn.calc_sts_g_functions(sut)
+        finally:
+            restore_shadows()
+        t = np.array(labels) * rn.t_s
+        steps = np.diff(t)
+        bad = bool(len(steps) and (abs(steps - 120.0) > 1e-6 * 120.0).any())
+        return bad, dict(borehole=k, H=float(sut.b.H), solves=len(solves), label_steps=[float(x) for x in steps[:3]], coefficient_step=120.0,
+                         period_s=float(rn.calc_time_in_sec))
+    return replay
+
+
 def dynamic_replay(k, cells, mode):
     def replay(model, notes):
         """native: the real calc_sts_g_functions with the real LAPACK on the reduced mesh, started from the model's state"""
@@ -372,5 +475,9 @@ def units(tier, seed):
                 us.append(Unit('step_%s_bh%d_%dcells' % (mode, k, sum(cells)), dynamic_fn(k, cells, mode), dynamic_replay(k, cells, mode), setup, F[2:],
                                'borehole %d of the catalogue, mesh %s = %d cells; previous temperatures all reals in [20,120], far field 20' % (k, '/'.join(map(str, cells)), sum(cells)),
                                AS, ST, max_seconds=1500, timeout_ms=600000))
+    for k in ([0, 2, 8] if tier == 'quick' else list(range(12))):
+        us.append(Unit('time_axis_bh%d' % k, time_axis_fn(k, (3, 1, 2, 3, 8)), time_axis_replay(k, (3, 1, 2, 3, 8)), setup, F[2:],
+                       'borehole %d of the catalogue with its own default simulation period; first three solves of the real loop; previous temperatures symbolic' % k,
+                       AS, ST + ['math.log -> recorder of the time labels; the loop is left after the third label'], max_seconds=600))
     us.append(Unit('twin_reachability', dynamic_fn(0, (3, 1, 2, 3, 8), 'bound', twin=True), None, setup, F[2:], 'assert False must be violated', expect_cex=True))
     return us
